@@ -54,6 +54,8 @@ pub struct Scenario {
     pub terminal: Terminal,
     pub plan: FaultPlan,
     pub bound: u32,
+    /// install a progress callback with this rate (virtual milliseconds); `None`: no callback
+    pub callback_ms: Option<u64>,
 }
 
 impl Scenario {
@@ -70,6 +72,7 @@ impl Scenario {
             "terminal": format!("{:?}", self.terminal),
             "faults": self.plan.describe(),
             "preemption_bound": self.bound,
+            "progress_callback_ms": self.callback_ms,
         })
     }
     pub fn total_draws(&self) -> usize {
@@ -239,7 +242,15 @@ fn run_with<S: Settings>(scn: &Scenario, settings: S) {
     };
     let cores = scn.cores;
     let created = catch_unwind(AssertUnwindSafe(|| {
-        Sampler::new(model, settings, cfg, cores, None)
+        let callback = scn.callback_ms.map(|ms| nuts_rs::ProgressCallback {
+            callback: Box::new(|elapsed: std::time::Duration, progress: Box<[nuts_rs::ChainProgress]>| {
+                // the time reported as spent sampling can never exceed the time that has passed
+                let now = sched_facade::virtual_now();
+                log_event(Event::Callback { elapsed_ns: elapsed.as_nanos() as u64, now_ns: now.as_nanos() as u64, chains: progress.len() });
+            }),
+            rate: std::time::Duration::from_millis(ms),
+        });
+        Sampler::new(model, settings, cfg, cores, callback)
     }));
     let mut sampler: Option<Sampler<RecFinal>> = match created {
         Ok(Ok(s)) => Some(s),
